@@ -281,7 +281,20 @@ impl RedeemNode {
     /// In this case, the witness data needs to be revised.
     /// The other pruning steps (2 & 3) never fail.
     pub fn prune<JE: JetEnvironment>(&self, env: &JE) -> Result<Arc<RedeemNode>, ExecutionError> {
-        self.prune_with_tracker(env, &mut SetTracker::default())
+        // A single pass can leave work behind: types are re-inferred in a context that also
+        // saw the dropped nodes, and the tracker identifies case nodes by their unpruned IHR,
+        // so two distinct nodes with the same IHR are judged together. Both effects vanish when
+        // the result is pruned again, so we repeat until the program no longer changes.
+        let mut pruned = self.prune_with_tracker(env, &mut SetTracker::default())?;
+        loop {
+            let again = pruned.prune_with_tracker(env, &mut SetTracker::default())?;
+            // Hiding a branch without witness data does not change the IHR,
+            // so compare the serialisations.
+            if again.to_vec_with_witness() == pruned.to_vec_with_witness() {
+                return Ok(pruned);
+            }
+            pruned = again;
+        }
     }
 
     /// Prune the redeem program, as in [`Self::prune`], but with a custom tracker which
